@@ -168,3 +168,28 @@ def admission_scenarios(env):
     return dict(name='admission_scenarios', validates='the admission decision end to end on real networks (TLS + acknowledgement handshake + registration), which the lifted block contract cannot see',
                 cases=cases, failed=fails, ok=not fails, props=['C10'],
                 clause='Never -> never admitted; High/Allowed -> always admitted; others -> admitted iff no limit or established (in and out) < limit; explicit dials are never blocked; a rejected dialer sees its connect fail')
+
+
+def default_timeouts_wiring(env):
+    """C11 wiring on real networks (loopback, real time, wide margins: defaults 150 ms vs a 900 ms handler)"""
+    fails, cases = [], 0
+    for order in ('no_layer', 'config_then_layer', 'layer_then_config'):
+        for (sc, want) in [
+            (dict(order=order, client_outbound_ms=150, handler_ms=900), 'client-timeout'),
+            (dict(order=order, server_inbound_ms=150, handler_ms=900), 'server-408'),
+            (dict(order=order, client_outbound_ms=150, server_inbound_ms=150, handler_ms=10), 'success'),
+            (dict(order=order, handler_ms=300), 'success'),
+        ]:
+            got = _run('default_timeouts', sc, env)
+            cases += 1
+            if want == 'client-timeout':
+                ok = got.get('outcome') == 'error' and got.get('elapsed_ms', 10**9) < 700
+            elif want == 'server-408':
+                ok = got.get('outcome') == 'response' and got.get('status') == 408 and got.get('elapsed_ms', 10**9) < 700
+            else:
+                ok = got.get('outcome') == 'response' and got.get('status') == 200
+            if not ok:
+                fails.append(dict(scenario='default_timeouts', args=sc, expected=dict(outcome=want), observed=got))
+    return dict(name='default_timeouts_wiring', validates='Builder::start installs the timeout layers with the configured defaults around the user service and around every outbound call, whatever the order of builder calls',
+                cases=cases, failed=fails, ok=not fails, props=['C11'],
+                clause='the configured defaults take effect on every RPC made through a network: a handler needing more is cut off at that deadline (RequestTimeout on the serving side, a timeout error on the calling side)')
